@@ -117,6 +117,7 @@ def _job(job):
         dist = int(dist) if isinstance(dist, (int, float)) else -1
     except Exception:
         dist = -1
+    npos = [len(code) if isinstance(code, str) else 0]
     for text, g, prec in tl:
         kw = {'errorKlass': Custom}
         if prec is not None:
@@ -124,8 +125,15 @@ def _job(job):
         if g is not None:
             kw['gender'] = g
         site = ''
+        # the published positional order (discipline, textvalue, gender, ulpc, errorKlass, prec) - the JavaScript port has
+        # positional arguments only - is used for every third call; the others name their options
+        npos[0] += 1
+        positional = npos[0] % 3 == 0
         try:
-            r = cp(code, text, **kw)
+            if positional:
+                r = cp(code, text, g if g is not None else 'all', 120 / 100.0, Custom, prec)
+            else:
+                r = cp(code, text, **kw)
             o = 'ok' if isinstance(r, str) else 'exc'
         except Custom:
             r, o = '', 'err'
